@@ -478,6 +478,68 @@ fn finalize_sweep(report: &Report) -> usize {
     cases
 }
 
+/// A key is begun a second time (another block of the slot streamed in under the slot-only key
+/// after an equivocation; a repair restarted from the first slice): the second execution starts
+/// afresh - its reported commitment is the fold of ITS parent seed over ITS transactions only.
+fn rebegin_sweep(report: &Report) -> usize {
+    let mut cases = 0;
+    let seqs: [Vec<Vec<u8>>; 3] = [vec![], vec![vec![b'a']], vec![vec![b'a'], vec![b'b']]];
+    for known in [false, true] {
+        for parent_kind in 0..3usize {
+            for first in &seqs {
+                for second in &seqs {
+                    for end_first in [false, true] {
+                        for other_parent_second in [false, true] {
+                            cases += 1;
+                            let (tx, mut rx) = mpsc::channel(64);
+                            let mut eng = DummyExecution::new(tx);
+                            let pid: BlockId = (Slot::new(4), bh("rebegin-parent"));
+                            let pid2: BlockId = (Slot::new(3), bh("rebegin-parent-2"));
+                            let id: BlockId = (Slot::new(5), bh("rebegin-block"));
+                            let key = || if known { InProgressBlock::Known(id.clone()) } else { InProgressBlock::Pending(id.0) };
+                            // parent: none / unknown / executed here
+                            let mut parent_commit: Option<Hash> = None;
+                            if parent_kind == 2 {
+                                eng.begin_block(InProgressBlock::Pending(pid.0), None);
+                                eng.execute_transactions(InProgressBlock::Pending(pid.0), vec![Transaction(vec![b'p'])]);
+                                eng.end_block(pid.clone());
+                                parent_commit = Some(fold(&as_hash(&alpenglow::crypto::merkle::GENESIS_BLOCK_HASH), &[vec![b'p']]));
+                                while rx.try_recv().is_ok() {}
+                            }
+                            let parent = match parent_kind { 0 => None, _ => Some(pid.clone()) };
+                            let seed_of = |p: &Option<BlockId>| match p {
+                                None => as_hash(&alpenglow::crypto::merkle::GENESIS_BLOCK_HASH),
+                                Some(b) if *b == pid && parent_commit.is_some() => parent_commit.clone().unwrap(),
+                                Some(b) => as_hash(&b.1),
+                            };
+                            eng.begin_block(key(), parent.clone());
+                            eng.execute_transactions(key(), first.iter().cloned().map(Transaction).collect());
+                            if end_first {
+                                eng.end_block(id.clone());
+                                while rx.try_recv().is_ok() {}
+                            }
+                            let parent2 = if other_parent_second { Some(pid2.clone()) } else { parent.clone() };
+                            eng.begin_block(key(), parent2.clone());
+                            eng.execute_transactions(key(), second.iter().cloned().map(Transaction).collect());
+                            eng.end_block(id.clone());
+                            let want: StateCommitment = fold(&seed_of(&parent2), second).into();
+                            let ok = matches!(rx.try_recv(), Ok(ExecutionEvent::BlockExecuted { result: Ok(r), .. }) if r.state_commitment == want && r.tx_count == second.len());
+                            if !ok {
+                                report.violation(
+                                    "C20:second-execution-under-one-key-not-fresh".to_string(),
+                                    format!("a block begun again under the same {} key (first attempt: {} transactions{}, second: {}, {} parent): the reported result is not the fold of the second attempt's seed over its own transactions", if known { "full-id" } else { "slot-only" }, first.len(), if end_first { ", ended" } else { "" }, second.len(), if other_parent_second { "another" } else { "the same" }),
+                                    json!({"oracle": "rebegin-sweep", "tracked_by_full_id": known, "parent_kind": parent_kind, "first": first.len(), "second": second.len(), "first_ended": end_first, "other_parent": other_parent_second}),
+                                );
+                            }
+                        }
+                    }
+                }
+            }
+        }
+    }
+    cases
+}
+
 /// Two versions of one slot in flight at once (one streamed in by dissemination and tracked by slot
 /// only, one repaired and tracked by its full id): each reports its own fold, and a child is seeded
 /// from the version it names as parent.
@@ -574,6 +636,8 @@ pub fn run(tier: Tier) -> i32 {
     let (cases, distinct) = dummy_execution(&report, tier);
     let versions = same_slot_versions(&report);
     let fin_cases = finalize_sweep(&report);
+    let rebegin_cases = rebegin_sweep(&report);
+    let cases = cases + rebegin_cases;
     let boundary_cases = bit_boundary_sweep(&report);
     println!("  bit-boundary sweep: {boundary_cases} insert/remove sequences");
     let cases = cases + versions + fin_cases;
@@ -589,7 +653,7 @@ pub fn run(tier: Tier) -> i32 {
         "bit_boundary_sequences": boundary_cases,
         "bit_boundary_rule": "for every bit position b of the address (0..=255) and three base patterns: keys {base, base^bit b, base^bit b^last bit, base^bit b+1} inserted in all 24 orders and removed in 4 rotations, the full state oracle after every operation",
         "dummy_execution_distinct_commitments": distinct,
-        "samples": [fams[0]["sample"].clone(), {"dummy_execution": "all block trees of up to 3 (thorough 4) blocks with parent in {none, unknown, any earlier block}, transaction sequences over {a,b} of length <= 2, Known/Pending ids, transactions in one call or one per call, sibling executions interleaved; plus two versions of one slot in flight at once (slot-only and full-id tracking, both begin/end orders, child on either); plus finalization: a chain of three blocks, each tracked by slot or by full id (all 8 combinations), finalized slot 1..4, then every block asked to report again (pruned ones must be silent) and a child begun on each of the three (seeded from the block hash of a pruned parent, from the computed commitment of a retained one)"}],
+        "samples": [fams[0]["sample"].clone(), {"dummy_execution": "all block trees of up to 3 (thorough 4) blocks with parent in {none, unknown, any earlier block}, transaction sequences over {a,b} of length <= 2, Known/Pending ids, transactions in one call or one per call, sibling executions interleaved; plus two versions of one slot in flight at once (slot-only and full-id tracking, both begin/end orders, child on either); plus finalization: a chain of three blocks, each tracked by slot or by full id (all 8 combinations), finalized slot 1..4, then every block asked to report again (pruned ones must be silent) and a child begun on each of the three (seeded from the block hash of a pruned parent, from the computed commitment of a retained one); plus a key begun twice (slot-only / full-id, parent none / unknown / executed, first attempt ended or not, same or other parent the second time, 0-2 transactions each): the second execution reports the fold of its own seed over its own transactions"}],
     });
     report.finish(cov)
 }
